@@ -64,9 +64,18 @@ pub fn run(ctx: &mut Ctx, o: &RichOpts) {
         if o.time {
             let t = now() as i64;
             let off = |r: &mut StdRng| -> i64 {
-                let mag = [30, 90, 121, 600, 3600, 86_400, 31_536_000, 315_360_000, 2_300_000_000i64][r.gen_range(0..9)];
+                // around the leeway (60 s) and the window's edge, and far away
+                let mag = [4, 10, 30, 55, 64, 70, 90, 121, 600, 3600, 86_400, 31_536_000, 315_360_000, 2_300_000_000i64][r.gen_range(0..14)];
                 let jitter = r.gen_range(0..=mag / 10);
                 (mag + jitter) * if r.gen_bool(0.5) { 1 } else { -1 }
+            };
+            // NumericDate may be fractional (RFC 7519): some instants are written as floats
+            let num = |r: &mut StdRng, v: i64| -> serde_json::Value {
+                if r.gen_bool(0.2) {
+                    serde_json::json!(v as f64 + [0.0, 0.25, 0.5, 0.75][r.gen_range(0..4)])
+                } else {
+                    serde_json::json!(v)
+                }
             };
             match r.gen_range(0..10) {
                 0 => {
@@ -75,13 +84,19 @@ pub fn run(ctx: &mut Ctx, o: &RichOpts) {
                 1 => claims["exp"] = serde_json::Value::Null,
                 2 => claims["exp"] = serde_json::json!("tomorrow"),
                 3 => claims["exp"] = serde_json::json!([-5i64, 0, 1, 59, 60, 61, 1000][r.gen_range(0..7)]),
-                _ => claims["exp"] = serde_json::json!(t + off(&mut r)),
+                _ => {
+                    let v = t + off(&mut r);
+                    claims["exp"] = num(&mut r, v);
+                }
             }
             match r.gen_range(0..4) {
                 0 => {
                     claims.as_object_mut().unwrap().remove("nbf");
                 }
-                _ => claims["nbf"] = serde_json::json!(t + off(&mut r)),
+                _ => {
+                    let v = t + off(&mut r);
+                    claims["nbf"] = num(&mut r, v);
+                }
             }
         }
         if o.plant > 0.0 && r.gen_bool(o.plant) {
